@@ -16,11 +16,11 @@ RULE = ("every users/assign of up to %s lines drawn from a 16-line template set 
 
 run_standard("C11", "Nq.Props.C11", "drv_c11", "harness/c11_users.c", "qmail-lspawn",
              ["spawn.o"],
-             "2 480", "3 6000", {"quick": RULE % (2, 480), "thorough": RULE % (3, 6000)},
+             "2 2000", "3 24000", {"quick": RULE % (2, 2000), "thorough": RULE % (3, 24000)},
              "newuFile/cdbMake, cdbSeek, nughdeCdb, getpwMain, docmd/spawnChild, reportByte (Nq/Users.lean) vs qmail-newu.c, cdb_seek.c, "
              "qmail-lspawn.c, qmail-getpw.c, spawn.c docmd()",
              alphabet=b"ab-AB:+=.\n%0",
-             stdin_prefixes=("0", "2", "4", "7"),
+             stdin_prefixes=("0",),
              extra_cc="cdbmss.o getln.a cdbmake.a auto_break.o stralloc.a substdio.a open.a error.a str.a fs.a case.a",
              assumptions=["setgroups/setgid/setuid/getuid have their POSIX meaning (interposed and recorded; after a successful setuid(u), getuid() = u)",
                           "getpwnam/getgrnam/stat of home directories are scripted; the delivery child runs in-process (fork() in spawn() returns 0), "
